@@ -99,6 +99,8 @@ type fixture struct {
 	cur      map[int64]string // thread key -> queue name currently handling
 	curTask  map[int64]string
 	Configs  int // number of --config invocations
+	OnTaskBegin func(queue string, t task.Task)
+	OnTaskEnd   func(queue string, t task.Task)
 	ConfigBy map[string]int
 }
 
@@ -284,6 +286,9 @@ func zzNewNamedQueue(tqs *queue.TaskQueueSet, name string, handler func(task.Tas
 }
 
 func (fx *fixture) taskBegin(qname string, t task.Task) {
+	if fx.OnTaskBegin != nil {
+		fx.OnTaskBegin(qname, t)
+	}
 	head := ""
 	if q := fx.op.TaskQueues.GetByName(qname); q != nil {
 		if h := q.GetFirst(); h != nil {
@@ -311,6 +316,9 @@ func (fx *fixture) taskBegin(qname string, t task.Task) {
 }
 
 func (fx *fixture) taskEnd(qname string, t task.Task, r queue.TaskResult) {
+	if fx.OnTaskEnd != nil {
+		fx.OnTaskEnd(qname, t)
+	}
 	fx.mu.Lock()
 	defer fx.mu.Unlock()
 	k := fxThreadKey()
